@@ -382,7 +382,8 @@ func (o *baseObject) checkDeleteProp(name unistring.String, prop *valueProperty,
 	if !prop.configurable {
 		if throw {
 			r := o.val.runtime
-			panic(r.NewTypeError("Cannot delete property '%s' of %s", name, r.objectproto_toString(FunctionCall{This: o.val})))
+			// the message must not run user code (no @@toStringTag lookup)
+			panic(r.NewTypeError("Cannot delete property '%s' of [object %s]", name, o.val.self.className()))
 		}
 		return false
 	}
